@@ -54,15 +54,12 @@ func StartCluster(o ClusterOptions) (*Cluster, error) {
 		return nil, err
 	}
 	c := &Cluster{Dir: dir, Env: o.Env}
+	ports, err := FreePorts(2 * o.Size)
+	if err != nil {
+		return nil, err
+	}
 	for i := 1; i <= o.Size; i++ {
-		p, err := FreePort()
-		if err != nil {
-			return nil, err
-		}
-		rp, err := FreePort()
-		if err != nil {
-			return nil, err
-		}
+		p, rp := ports[2*(i-1)], ports[2*(i-1)+1]
 		nd := &Node{ID: i, Port: p, RaftPort: rp, Dir: filepath.Join(dir, fmt.Sprintf("n%d", i))}
 		if o.NodeEnv != nil {
 			nd.env = o.NodeEnv(i, nd.Dir)
